@@ -1,17 +1,17 @@
 SPECIFICATION Spec
 CONSTANTS
-  MaxB = 4
+  MaxB = 3
   NPs = {1}
-  MaxPost = 1
+  MaxPost = 0
   Reserve = TRUE
   Titles <- TitleClasses
-  Stack = 64
-  WorkList = FALSE
+  Stack = 2
+  WorkList = TRUE
   DestSpellings = {"none"}
   FollowRefs = FALSE
   IdLimits = {1000000}
   CheckedIds = FALSE
-  Emit = TRUE
+  Emit = FALSE
 INVARIANTS RefinesForest RefinesAdjust RefinesFresh RefinesLinks RefinesCarries RefinesToc Verdict NoAbort RefusedOk EmitInv
 PROPERTIES Reserved
 CHECK_DEADLOCK FALSE
